@@ -284,6 +284,66 @@ impl Leg for PyAcgtLoop {
     }
 }
 
+/// the stream clauses through pykmertools.KmerGenerator on sequences of several kilobytes with long stretches of N:
+/// every pair's second component is the reverse complement of the first, and the stream of the reverse-complemented
+/// text is the mirrored stream (so whatever is lost or invented on one strand shows on the other)
+#[derive(Clone, Debug, Serialize, Deserialize)]
+pub struct PySymCase {
+    pub giant: gen::Giant,
+    pub k: usize,
+}
+
+pub struct PySym;
+impl Leg for PySym {
+    type Case = PySymCase;
+    const NAME: &'static str = "python-stream-symmetry";
+    fn strategy(_tier: Tier) -> BoxedStrategy<PySymCase> {
+        (gen::giant(1_500, 24_000, b"ACGTNacgtu".to_vec()), gen::k_strategy())
+            .prop_map(|(mut giant, k)| {
+                // long periods only (a homopolymer has a trivial stream) and at least one long gap in half of the cases
+                if giant.unit.0.len() < 40 {
+                    giant.unit = Bytes(b"ACGTTGCAAGGCTTAACCGGTTACGATCGATCGGCTAGGCTAGCTAGGATCGATTAGC".to_vec());
+                }
+                if giant.gaps.is_empty() && k % 2 == 0 {
+                    giant.gaps = vec![((k as u32).wrapping_mul(0x0F0F_1357), 1024 + (k as u32) * 77)];
+                }
+                PySymCase { giant, k }
+            })
+            .boxed()
+    }
+    fn check(c: &PySymCase) -> Verdict {
+        let mut v = Verdict::new();
+        v.class("python");
+        let seq = c.giant.expand();
+        let rc = model::revcomp_text(&seq);
+        v.class_if(!c.giant.gaps.is_empty(), "long-stretches-of-N");
+        let ask = |s: &[u8]| -> Result<Vec<(u64, u64)>, String> {
+            let r = crate::pyworker::ask(&serde_json::json!({"op": "kmers", "k": c.k, "seq": crate::pyworker::hex(s)}))?;
+            super::c01::parse_tuples_u64(&r, 2).map(|t| t.iter().map(|x| (x[0], x[1])).collect())
+        };
+        let (fwd, rev) = match (ask(&seq), ask(&rc)) {
+            (Ok(a), Ok(b)) => (a, b),
+            (Err(e), _) | (_, Err(e)) => {
+                crate::pyworker::record_error(&mut v, e);
+                return v;
+            }
+        };
+        v.nontrivial = fwd.len() >= 2;
+        for (i, (f, r)) in fwd.iter().enumerate() {
+            if *r != model::rc_code(*f, c.k) {
+                v.fail("python-pair-not-revcomp", format!("item {}: pair ({}, {}) (k={})", i, f, r, c.k));
+                return v;
+            }
+        }
+        let mirrored: Vec<(u64, u64)> = fwd.iter().rev().map(|&(f, r)| (r, f)).collect();
+        if rev != mirrored {
+            let p = rev.iter().zip(mirrored.iter()).position(|(a, b)| a != b);
+            v.fail("python-stream-symmetry", format!("pykmertools.KmerGenerator on {} bytes, k={}: the stream of the reverse-complemented text has {} items, the original {}; first difference at {:?}", seq.len(), c.k, rev.len(), fwd.len(), p));
+        }
+        v
+    }
+}
+
 /// many codes decoded one after the other on ONE Python object: families of codes that share their low (or
 /// high) digits, repeats, extremes - per-object memo tables keyed by a part of the code
 #[derive(Clone, Debug, Serialize, Deserialize)]
@@ -349,6 +409,8 @@ impl Leg for PyAcgtMany {
 }
 
 pub fn run(ctx: &mut Ctx) {
+    let n = ctx.share(ctx.tier.pick(400, 8_000));
+    ctx.run_leg::<PySym>(n, false, 40);
     let n = ctx.share(ctx.tier.pick(12_000, 200_000));
     ctx.run_leg::<PyAcgtMany>(n, false, 500);
     let n = ctx.share(ctx.tier.pick(30_000, 600_000));
@@ -383,6 +445,7 @@ pub fn replay(leg: &str, case: &serde_json::Value) -> Option<Result<Verdict, Str
         "seq-symmetry" => Some(crate::engine::replay_leg::<Seqs>(case)),
         "python-to-acgt" => Some(crate::engine::replay_leg::<PyAcgt>(case)),
         "python-to-acgt-one-object" => Some(crate::engine::replay_leg::<PyAcgtMany>(case)),
+        "python-stream-symmetry" => Some(crate::engine::replay_leg::<PySym>(case)),
         "raw-bytes-pairs" => Some(crate::engine::replay_leg::<RawPairs>(case)),
         "python-to-acgt-while-iterating" => Some(crate::engine::replay_leg::<PyAcgtLoop>(case)),
         "cold-start-threads" => Some(crate::engine::replay_leg::<Cold>(case)),
